@@ -12,7 +12,10 @@ META = {
             "sort(new ++ not-deleted old) with linear-scan lookups; the set is always key-sorted, a permutation of adds minus deletes, "
             "lookups by binary search are exact for every size incl. 0 and 1 (refuted for the legacy `probe==-1` test at size 1), "
             "seqNo counts completed resizes, renumbering gives 0..n-1, the reverse table inverts the map, wrong-state calls are "
-            "rejected without changing the state.  The model is tied to dune/common/parallel/indexset.hh on every run by running "
+            "rejected without changing the state; the state invariant (ordered, VALID in ground state, nothing pending) holds after ALL "
+            "histories; one resize phase yields a permutation of added ++ (old minus marked); const and non-const search spellings agree.  "
+            "Literals (search start values, the no-entries test, seqNo_(0), renumbering from 0) are re-read from the source into "
+            "coq/Params_gen.v.  The model is tied to dune/common/parallel/indexset.hh on every run by running "
             "the extracted model, the extracted spec and the C++ class on identical histories.",
     "note": "Trusted: Coq kernel, extraction, OCaml driver, C++ harness, g++; std::sort (modelled by insertion sort; equal keys in one "
             "batch are not generated unless identical); ArrayList = list (C11's refinement theorem); seqNo_ int overflow not modelled.",
@@ -361,14 +364,60 @@ def build(ctx, san=False):
     jobs = [dict(srcs=[SRC], out=ctx.path("impl_chk"), opt="-O1"),
             dict(srcs=[SRC], out=ctx.path("impl_ndebug"), opt="-O2", flags=["-DNDEBUG"])]
     if san:
-        jobs.append(dict(srcs=[SRC], out=ctx.path("impl_san"), san=True))
+        jobs.append(dict(srcs=[SRC], out=ctx.path("impl_san"), san=True, flags=["-DC03_SAN_SUBSET"]))
     outs = V.cxx_many(ctx, jobs)
     exes = {"model": model, "impl_chk": outs[0], "impl_ndebug": outs[1]}
     if san: exes["impl_san"] = outs[2]
     return exes
 
 
+def params_hook(ctx):
+    """tools/extract_params.py feeds the shared coq/Params_gen.v (convention).  The C03 model itself imports coq/C03_Params.v, which
+    is written here from the SAME translator (tools/params.d/C03.py) and only when its content changes: the shared file is
+    rewritten and recompiled whenever any property's constants change (other checks, mutant runs), which would make
+    C03_Model.vo inconsistent in the middle of a run."""
+    V.sh([sys.executable, os.path.join(V.VERIF, "tools", "extract_params.py"), ctx.repo], check=True)
+    ns = {}
+    exec(open(os.path.join(V.VERIF, "tools", "params.d", "C03.py")).read(), ns)
+    report = {}
+    def read(p_):
+        try: return open(os.path.join(ctx.repo, p_), errors="replace").read()
+        except OSError: return ""
+    def find(name, text, rx, default, conv=lambda x: int(x, 0)):
+        m = re.search(rx, text)
+        if m:
+            try:
+                v = conv(m.group(1)); report[name] = {"value": v, "source": "extracted"}; return v
+            except Exception: pass
+        report[name] = {"value": default, "source": "DEFAULT (not located in source)"}
+        return default
+    body = ns["lines"](ctx.repo, read, find, report)
+    content = ("(* GENERATED by checks/C03.py (params_hook) from tools/params.d/C03.py on every check run -- do not edit.\n"
+               "   Literals of dune/common/parallel/indexset.hh that the C03 model and theorems depend on. *)\n"
+               "From Coq Require Import NArith ZArith.\n" + "\n".join(body) + "\n")
+    out = os.path.join(V.COQ, "C03_Params.v")
+    if (open(out).read() if os.path.exists(out) else None) != content:
+        open(out, "w").write(content)
+    ctx.coverage["source_literals"] = report
+
+
 def run(ctx):
+    try:
+        run_(ctx)
+    finally:
+        # a run against another tree (mutant / seeded worktree) may have written that tree's literals: restore those of /repo,
+        # as tools/try_mutant.sh does for the shared Params_gen.v
+        if os.path.abspath(ctx.repo) != "/repo" and os.path.isdir("/repo/dune"):
+            cov = dict(ctx.coverage)
+            class _C: pass
+            c2 = _C(); c2.repo = "/repo"; c2.coverage = {}
+            try: params_hook(c2)
+            except Exception: pass
+            ctx.coverage.clear(); ctx.coverage.update(cov)
+
+
+def run_(ctx):
+    ctx.params_hook = params_hook
     V.coq_stage(ctx)
     exes = build(ctx, san=True)
     cases, dist = gen(ctx)
@@ -438,7 +487,7 @@ def run(ctx):
                                           "oracle": dict(judge(small, sio[0], sp)).get(sig), "unshrunk_case": c})
                 ctx.viol[k] = (s_, r2, f_); break
     # sanitizer variant on a subsample of the checked cases
-    sub = [i for i, c in enumerate(cases) if c.split()[1] == "1"][::(9 if ctx.quick else 4)]
+    sub = [i for i, c in enumerate(cases) if c.split()[1] == "1" and c.split()[0].rstrip("L") in ("1", "3")][::(3 if ctx.quick else 2)]
     so_ = V.run_cases(ctx, [exes["impl_san"]], [cases[i] for i in sub], tag="san", timeout=120 if ctx.quick else 900)
     for j, i in enumerate(sub):
         if so_[j] != io[i]:
